@@ -354,6 +354,8 @@ def cache_reset_rule(ctx, rule):
         clears = set(s_.bb for s_, ai_, mut_ in calls_on_field(prog, OR, "cache", funcs=[g]) if method_name(s_) in ("clear", "drain", "truncate"))
         clears |= set(x_["bb"] for x_ in field_accesses(prog, OR, "cache", funcs=[g]) if x_["kind"] == "assign" and x_["value"] is not None and
                       re.search(r"Vec::new\(\)$|vec::from_elem|Vec::with_capacity", show(x_["value"], 80)))
+        clears |= set(c_.bb for c_ in call_sites(g, lambda p_, cc_: re.search(r"mem::(take|replace)$", p_) is not None)
+                      if re.search(r"\bself\.cache\b", show(c_.expr[2][0], 120)))
         # … or by a call of a method of the same object that clears it (self.error(..) / self.complete(..) before a `break`)
         clearing_fns = set(s_.func.root().path for s_, ai_, mut_ in calls_on_field(prog, OR, "cache") if method_name(s_) in ("clear",))
         clears |= set(c_.bb for c_ in call_sites(g, lambda p_, cc_: p_ in clearing_fns and p_ != g.path))
